@@ -65,6 +65,10 @@ def run_one(ctx, profile, seed, run, ops=None, cfg=None, keep_ops=True):
     rs = Streams(seed, run)
     if cfg is None:
         cfg = profile.config(rs.config)
+        if cfg.get("deep"):
+            # thorough tier: 40 % of the runs are three times as long (later generations,
+            # fuller worlds, longer schedules)
+            cfg["steps"] = cfg["steps"] * 3
     res.cfg = cfg
     ctx.seams.bind(rs, cfg.get("order_mode", "sorted"))
     w = World(ctx.g, ctx.seams, rs, cfg, profile.prop)
